@@ -13,10 +13,10 @@ Wide == {L(x) : x \in Names} \cup {IS(x) : x \in Names}
             \cup {IC(c) : c \in {0, 1, 2, 3, 4, 8, 255, 256, 1000, 65535}}
             \cup {[k |-> "data", sz |-> z] : z \in {2, 4, 250}}
             \cup {[k |-> "scope"], [k |-> "ends"]}
-            \cup {[k |-> "set", n |-> x, v |-> v] : x \in {"a", "b"}, v \in {2, 300}}
+            \cup {[k |-> "set", n |-> x, v |-> v] : x \in {"a", "b"}, v \in {0, 2, 300}}
 
 Small == {L("a"), L("b"), IC(1), IC(100), IS("a"), IS("b"), [k |-> "data", sz |-> 2],
-          [k |-> "scope"], [k |-> "ends"], [k |-> "set", n |-> "a", v |-> 2], [k |-> "set", n |-> "a", v |-> 100]}
+          [k |-> "scope"], [k |-> "ends"], [k |-> "set", n |-> "a", v |-> 2], [k |-> "set", n |-> "a", v |-> 100], [k |-> "set", n |-> "b", v |-> 0]}
 Tiny == {L("a"), L("b"), IC(100), IS("a"), [k |-> "data", sz |-> 2],
          [k |-> "scope"], [k |-> "ends"], [k |-> "set", n |-> "a", v |-> 2]}
 Alphabet == IF Alpha = "small" THEN Small ELSE IF Alpha = "tiny" THEN Tiny ELSE Wide
